@@ -60,6 +60,7 @@ func safeRun(p *Prop, c string) string {
 		return o
 	case <-time.After(caseTimeout):
 		dumpStacks(c)
+		atomic.AddInt32(&hangs, 1)
 		return "HANG"
 	}
 }
@@ -83,6 +84,21 @@ func dumpStacks(c string) {
 }
 
 var caseTimeout = 10 * time.Second
+
+// hangs counts the cases that exceeded their time limit. Their goroutines are abandoned and may keep a processor busy
+// (a walk that never ends): after maxHangs of them the run stops — the cases answered so far are judged, the hanging ones
+// are violations with their replays — instead of sitting out the limit another thousand times.
+var hangs int32
+
+const maxHangs = 8
+
+func tooManyHangs() bool {
+	if atomic.LoadInt32(&hangs) >= maxHangs {
+		fmt.Fprintf(os.Stderr, "%d cases exceeded their time limit: the run stops here\n", maxHangs)
+		return true
+	}
+	return false
+}
 
 // runCase runs one case; when an in-process instance died under it without the harness having stopped it (busDeaths), the
 // property's instances are started afresh and the case is run again, at most twice: a death that repeats is reported as
@@ -217,6 +233,9 @@ func main() {
 			if flushEach {
 				w.Flush()
 			}
+			if tooManyHangs() {
+				break
+			}
 		}
 	case "replay":
 		sc := bufio.NewScanner(os.Stdin)
@@ -234,6 +253,9 @@ func main() {
 			fmt.Fprintf(w, "%s %s => %s\n", id, c, runCase(p, c))
 			if flushEach {
 				w.Flush()
+			}
+			if tooManyHangs() {
+				break
 			}
 		}
 	default:
